@@ -15,6 +15,7 @@ LEVEL = "exploration"
 TECHNIQUE = ('deterministic simulation with a simulated foreign peer: reference encoder making every legal choice through the choice tape (buggify on the peer side) -> channel -> six real parse entry points')
 LEVEL_NOTE = ("sampled valid streams of an independent producer; the model's own output is first validated by the reference decoder")
 OPTIMIZED_EVERY = 25      # every 25th run is executed in a child interpreter started with python -O
+PBPY_EVERY = 50           # every 50th run (offset 6) is executed with protobuf's pure-Python backend
 COMPILED_EVERY = 25       # every 25th run (offset 12) is executed in a child that imports a mypyc build of the tree
 RUNS = {"quick": 60000, "thorough": 1200000}
 RULE = ("seeded runs: statement/namespace sequence x options x legal-choice tape of the reference encoder "
